@@ -22,7 +22,7 @@ ASSUMPTIONS = [
 TRUSTED = ["modelled rather than verified: core/internal/congestion/common/pacer.go and core/internal/congestion/brutal/brutal.go "
            "(hand transcription in coq/model/C11_Pacer.v, C11_Brutal.v; binary64 arithmetic = Coq primitive floats, lib/F64.v)",
            "Coq primitive floats (kernel implementation of binary64 + the FloatAxioms specification used by the float bridge lemmas)"]
-PER_SHARD = 24
+PER_SHARD = 40
 EXTRA_TARGETS = ["corr/C11_Corr.vo"]
 
 MDS = [1200, 1252, 1280, 1452, 1500]
@@ -225,8 +225,9 @@ def slim(o):
 def run(ctx):
     import os
     import sys
-    global DETAIL
+    global DETAIL, PER_SHARD
     DETAIL = bool(os.environ.get("VERIF_C11_DETAIL"))
+    PER_SHARD = 40 if ctx.tier == "quick" else 100   # fewer, larger shards when there are many cases (coqc start-up dominates)
     # Print Assumptions lists Coq's primitive float/int operations under a header line "Axioms:";
     # the shared parser reads that header as a name.  Accept it here (the names themselves are
     # still checked against the allow-list: PrimFloat. / PrimInt63. / FloatAxioms. prefixes).
@@ -253,6 +254,10 @@ LEVEL_TEXT = ("Machine-checked Coq theorems over a statement-by-statement Gallin
               "BrutalSender+Pacer against the model on simulated send loops and directed call sequences (every returned value and the "
               "ackRate bit pattern identical, evaluated by vm_compute).")
 LEVEL_NOTE = ("Trusted: Coq kernel + vm_compute incl. primitive floats; hand-written model (tie is sampled differential testing + regenerated Params); "
-              "python/Go glue. Not proved: wall-clock behaviour of the real send loop (timer slack, GSO batching).")
+              "python/Go glue. Axioms: the pacer theorems are closed under the global context; the theorems that mention float64 values list Coq's "
+              "primitive float/int operations, and the two float-bridge theorems (C11_bandwidth_bound, C11_sender_bandwidth_bound) additionally use "
+              "Coq.Floats.FloatAxioms (primitive operations = SpecFloat operations) and the standard real-number axioms pulled in by Flocq "
+              "(ClassicalDedekindReals.sig_forall_dec, sig_not_dec, functional_extensionality_dep, Classical_Prop.classic). "
+              "Not proved: wall-clock behaviour of the real send loop (timer slack, GSO batching); rates >= 2^50 B/s; rate x gap >= 2^63.")
 TECHNIQUE = "Coq proof (token-bucket telescoping invariant, slot-table invariant over event histories) on a hand-written model + differential correspondence check in vm_compute"
 DESIGN_REF = "DESIGN.md section 4 C11"
